@@ -63,3 +63,6 @@ package messages
 //@   requires s != nil && s.log != nil
 //@ trusted func github.com/vx-labs/commitlog/stream.FromOffset(o int64) (r stream.consumerOpts)
 //@   modifies nothing
+// the state file is mapped SHARED and writable: what is stored reaches the file (a private mapping would be lost at exit)
+//@ callsite (*store).Consume -> github.com/tysontate/gommap.Map(fd uintptr, prot gommap.ProtFlags, flags gommap.MapFlags)
+//@   requires [C15] flags == 1 && prot == 3
